@@ -174,9 +174,9 @@ func init() {
 			}
 			// second pass: API operations and background steps as fault targets
 			topts := map[string]interface{}{"import": true, "remove": true, "new_addr": true, "templates": []string{"e", "a2b"}, "c_blocks": []string{"pc0"}, "patterns": []string{"E"}, "max_reorg": 1, "max_queue": 1, "max_height": 5}
-			tdepth, tmax := 4, 0
+			tdepth, tmax := 3, 0
 			if c.Tier == "thorough" {
-				tdepth, tmax = 5, 0
+				tdepth, tmax = 4, 0
 			}
 			tcov, tviols, err := faultEnum(c, "fail", topts, tdepth, tmax, reps, budget)
 			if err != nil {
@@ -187,7 +187,7 @@ func init() {
 			cov["rule"] = "base histories = shortest history of every state of the C01 space up to the base depth; a dry run over the db seam counts the fallible wallet-database calls c (BeginTx, BeginReadTx, Get, GetByPrefix, Put, Delete, Clear, NewBucket, DeleteBucket, iterator, Commit); for EVERY call index i<c and every repeat count the history is re-run with those calls returning an error; " +
 				"afterwards storage works again, queued notifications are delivered, the node announces one more tip, and all ledger queries are compared with the reference ledger; distinct_nontrivial = distinct final observations"
 			return cov, []string{
-				"second pass (coverage.task_pass): ImportWalletWithMnemonic, one rescan batch, RemoveWallet, the background removal run, NewAddress and restart as fault targets; an operation that reports failure under the fault is repeated once storage works again (the worker's own re-queueing of a failed removal is modelled by repeating the run); CreateWallet is not a fault target here",
+				"second pass (coverage.task_pass): CreateWallet, ImportWalletWithMnemonic, one rescan batch, RemoveWallet, the background removal run, NewAddress and restart as fault targets; an operation that reports failure under the fault must not have queued work for the worker and is repeated once storage works again (the worker's own re-queueing is modelled from what each step returned)",
 				"an injected iterator failure yields an empty iteration whose Error() returns the injected error",
 			}, viols, nil
 		},
